@@ -26,19 +26,19 @@ pub(crate) fn to_raw(p: &Patterns) -> (u8, Vec<Vec<u8>>, Vec<u32>, usize) {
     )
 }
 
-/// Rebuild around borrowed statics; the only loop is over the patterns.
+/// One pattern, aliasing a static.
+pub fn pat(p: &'static [u8]) -> Vec<u8> {
+    unsafe { Vec::from_raw_parts(p.as_ptr() as *mut u8, p.len(), p.len()) }
+}
+
+/// Rebuild around borrowed statics, loop free (`by_id` comes from a
+/// `vec![pat(..), ..]` literal in the generated code).
 pub(crate) fn from_parts(
     kind: u8,
-    by_id: &'static [&'static [u8]],
+    v: Vec<Vec<u8>>,
     order: &'static [u32],
     minimum_len: usize,
 ) -> Patterns {
-    let mut v: Vec<Vec<u8>> = Vec::with_capacity(by_id.len());
-    for p in by_id {
-        v.push(unsafe {
-            Vec::from_raw_parts(p.as_ptr() as *mut u8, p.len(), p.len())
-        });
-    }
     let order: Vec<PatternID> = unsafe {
         Vec::from_raw_parts(
             order.as_ptr() as *mut PatternID,
